@@ -165,7 +165,7 @@ Proof.
   - destruct (p b) eqn:E.
     + destruct (cur_ok_step _ _ _ _ H eq_refl (Hp _ E)) as [H' _].
       destruct (IH _ H') as (A & B & C & D).
-      repeat split; try assumption; try lia. intros. lia.
+      refine (conj A (conj _ (conj _ D))); [lia | intros; lia].
     + split; [exact H|]. cbn. repeat split; try lia.
       * intros b' t' Eq Pb. inversion Eq; subst. congruence.
       * intros b' t' Eq. inversion Eq; subst. exact E.
@@ -281,6 +281,176 @@ Proof.
   destruct ok.
   - inversion E; subst. split; assumption.
   - destruct (IH _ _ _ H1 Aalts E) as [H2 P2]. split; [assumption | lia].
+Qed.
+
+(* ---------------------------------------------------------------- spans *)
+
+Lemma span_ok : forall a b, is_boundary s a = true -> is_boundary s b = true -> a <= b -> b <= length s -> span_wf s a b.
+Proof. intros. unfold span_wf. tauto. Qed.
+
+Lemma span_curs : forall a c, is_boundary s a = true -> cur_ok c -> a <= c_pos c -> span_wf s a (c_pos c).
+Proof.
+  intros a c Ba H L. apply span_ok; [exact Ba | apply cur_ok_boundary; exact H | exact L | apply H].
+Qed.
+
+Lemma slice_curs : forall a c, is_boundary s a = true -> cur_ok c -> a <= c_pos c ->
+  slice s a (c_pos c) = Some (firstn (c_pos c - a) (skipn a s)).
+Proof. intros a c Ba H L. apply span_wf_slice. apply span_curs; assumption. Qed.
+
+Lemma mk_diag_wf : forall e l a b, span_wf s a b -> diag_wf s (mk_diag e l a b).
+Proof. intros. exact H. Qed.
+
+Lemma ident_diags_wf : forall w a b, span_wf s a b -> Forall (diag_wf s) (ident_diags w a b).
+Proof.
+  intros w a b W. unfold ident_diags. destruct w as [|f o]; [constructor|].
+  destruct (is_alpha_us f); [destruct (forallb is_alnum_us o)|];
+    first [apply Forall_nil | apply Forall_cons; [exact W | apply Forall_nil]].
+Qed.
+
+(* ---------------------------------------------------------------- identifiers / keywords *)
+
+Lemma scan_ident_ok : forall c b t, cur_ok c -> c_rest c = b :: t -> is_alpha_us b = true ->
+  exists k p o c' ds, scan_identifier_or_keyword s (c_pos c) c = Ok (k, p, o, c', ds) /\
+    cur_ok c' /\ c_pos c < c_pos c' /\ Forall (diag_wf s) ds.
+Proof.
+  intros c b t H E A. unfold scan_identifier_or_keyword. cbv zeta.
+  destruct (skip_while_ok is_word_byte word_byte_ascii (c_rest c) (c_pos c)) as (H1 & P1 & Q1 & _).
+  { rewrite advn_eta. exact H. }
+  cbv zeta in H1, P1, Q1.
+  assert (P : c_pos c < c_pos (skip_while is_word_byte (c_rest c) (c_pos c))).
+  { eapply Q1; [exact E | apply alpha_us_word; exact A]. }
+  remember (skip_while is_word_byte (c_rest c) (c_pos c)) as c1 eqn:Ec1.
+  pose proof (cur_ok_boundary c H) as Bc.
+  rewrite (slice_curs (c_pos c) c1 Bc H1 P1).
+  remember (firstn (c_pos c1 - c_pos c) (skipn (c_pos c) s)) as word eqn:Ew.
+  destruct (assoc_bytes word multi_table) as [alts|] eqn:M.
+  - destruct (try_alternatives c1 alts) as [[k c2]|] eqn:T.
+    + destruct (try_alternatives_ok alts c1 k c2 H1 (multi_alts_ascii _ _ M) T) as [H2 P2].
+      exists k, [], false, c2, []. refine (conj eq_refl (conj H2 (conj _ (Forall_nil _)))). lia.
+    + exists TIdentifier, word, false, c1, []. exact (conj eq_refl (conj H1 (conj P (Forall_nil _)))).
+  - destruct (assoc_bytes word keyword_table) as [k|].
+    + exists k, [], false, c1, []. exact (conj eq_refl (conj H1 (conj P (Forall_nil _)))).
+    + exists TIdentifier, word, false, c1, (ident_diags word (c_pos c) (c_pos c1)).
+      refine (conj eq_refl (conj H1 (conj P _))). apply ident_diags_wf. apply span_curs; assumption.
+Qed.
+
+(* ---------------------------------------------------------------- strings *)
+
+Lemma scan_string_loop_ok : forall fuel start beg quote cur esc buf,
+  cur_ok cur -> length (c_rest cur) < fuel ->
+  is_boundary s start = true -> is_boundary s beg = true -> start <= beg -> beg <= c_pos cur ->
+  is_ascii quote = true ->
+  exists p o c' ds,
+    scan_string_loop fuel repaired s start beg quote cur esc buf = Ok (TString, p, o, c', ds) /\
+    cur_ok c' /\ c_pos cur <= c_pos c' /\ Forall (diag_wf s) ds.
+Proof.
+  induction fuel as [|fuel IH]; intros start beg quote cur esc buf H F Bs Bb Lsb Lbc Aq; [lia|].
+  cbn [scan_string_loop].
+  pose proof (memchr2_ok cur 10 13 H eq_refl eq_refl) as Hnl.
+  pose proof (memchr2_ok cur quote 92 H Aq eq_refl) as Hqe.
+  pose proof (memchr2_le quote 92 (c_rest cur)) as Lqe.
+  pose proof (memchr2_skipn quote 92 (c_rest cur)) as Sqe.
+  remember (memchr2 quote 92 (c_rest cur)) as qe eqn:Eqe.
+  remember (memchr2 10 13 (c_rest cur)) as nl eqn:Enl.
+  destruct (nl <? qe) eqn:C1.
+  { (* a line break comes first *)
+    assert (W : span_wf s start (c_pos cur + nl)).
+    { apply (span_curs start (advn nl cur)); [exact Bs | exact Hnl | cbn; lia]. }
+    destruct esc.
+    - eexists _, _, _, _. split; [reflexivity|]. split; [exact Hnl|]. split; [cbn; lia|].
+      apply Forall_cons; [exact W | apply Forall_nil].
+    - pose proof (slice_curs beg (advn nl cur) Bb Hnl) as Q. unfold advn in Q. cbn [c_pos] in Q. rewrite Q by lia.
+      eexists _, _, _, _. split; [reflexivity|]. split; [exact Hnl|]. split; [cbn; lia|].
+      apply Forall_cons; [exact W | apply Forall_nil]. }
+  destruct (qe =? length (c_rest cur)) eqn:C2.
+  { (* end of input *)
+    assert (W : span_wf s start (c_pos cur)) by (apply span_curs; [exact Bs | exact H | lia]).
+    destruct esc.
+    - eexists _, _, _, _. split; [reflexivity|]. split; [exact H|]. split; [lia|].
+      apply Forall_cons; [exact W | apply Forall_nil].
+    - rewrite (slice_curs beg cur Bb H Lbc).
+      eexists _, _, _, _. split; [reflexivity|]. split; [exact H|]. split; [lia|].
+      apply Forall_cons; [exact W | apply Forall_nil]. }
+  apply Nat.eqb_neq in C2.
+  destruct (skipn qe (c_rest cur)) as [|ch after] eqn:Sk.
+  { exfalso. apply skipn_nil_inv in Sk. lia. }
+  assert (Hcq : cur_ok {| c_rest := ch :: after; c_pos := c_pos cur + qe |}).
+  { unfold advn in Hqe. rewrite Sk in Hqe. exact Hqe. }
+  assert (Hx : ch = quote \/ ch = 92%Z).
+  { destruct Sqe as [Sq | (x & t' & Sq & Hx)]; [discriminate|]. inversion Sq; subst. exact Hx. }
+  assert (Ach : is_ascii ch = true) by (destruct Hx; subst; [exact Aq | reflexivity]).
+  destruct (cur_ok_step _ _ _ _ Hcq eq_refl Ach) as [Hafter Lpos].
+  assert (Lafter : S (length after) = length (c_rest cur) - qe).
+  { rewrite <- (skipn_length qe (c_rest cur)), Sk. reflexivity. }
+  remember (c_pos cur + qe) as pos eqn:Epos.
+  assert (Bpos : is_boundary s pos = true) by (apply (cur_ok_boundary _ Hcq)).
+  assert (Seg : exists seg, (if c_pos cur <? pos then slice s (c_pos cur) pos else Some []) = Some seg).
+  { destruct (c_pos cur <? pos); [|eexists; reflexivity].
+    pose proof (slice_curs (c_pos cur) _ (cur_ok_boundary _ H) Hcq) as Q. cbn [c_pos] in Q.
+    rewrite Q by lia. eexists; reflexivity. }
+  destruct Seg as [seg Seg].
+  assert (Sbeg : exists p, slice s beg pos = Some p).
+  { pose proof (slice_curs beg _ Bb Hcq) as Q. cbn [c_pos] in Q. rewrite Q by lia. eexists; reflexivity. }
+  destruct Sbeg as [pbeg Sbeg].
+  destruct (ch =? quote)%Z eqn:Cq.
+  { (* closing quote *)
+    destruct esc.
+    - rewrite Seg. eexists _, _, _, _. split; [reflexivity|]. split; [exact Hafter|]. split; [cbn; lia|]. constructor.
+    - rewrite Sbeg. eexists _, _, _, _. split; [reflexivity|]. split; [exact Hafter|]. split; [cbn; lia|]. constructor. }
+  destruct (ch =? 92)%Z eqn:C92.
+  2:{ exfalso. apply Z.eqb_neq in Cq. apply Z.eqb_neq in C92. destruct Hx; congruence. }
+  assert (Cp : exists seg', match buf with [] => slice s beg pos | _ :: _ => (if c_pos cur <? pos then slice s (c_pos cur) pos else Some []) end = Some seg').
+  { destruct buf; [exists pbeg; exact Sbeg | exists seg; exact Seg]. }
+  destruct Cp as [seg' Cp]. rewrite Cp.
+  destruct after as [|e after2].
+  { (* backslash is the last byte *)
+    eexists _, _, _, _. split; [reflexivity|]. split; [exact H|]. split; [lia|].
+    apply Forall_cons; [|apply Forall_nil]. apply mk_diag_wf. apply span_curs; [exact Bs | exact H | lia]. }
+  destruct (escape_lookup quote e) as [pushed|] eqn:El.
+  { (* known escape *)
+    pose proof (escape_is_ascii _ _ _ El) as Ae.
+    destruct (cur_ok_step _ _ _ _ Hafter eq_refl Ae) as [H2 _].
+    replace (pos + 2) with (S (S pos)) by lia.
+    destruct (IH start beg quote {| c_rest := after2; c_pos := S (S pos) |} true ((buf ++ seg') ++ [pushed]) H2)
+      as (p & o & c' & ds & E & H' & P' & D'); try assumption.
+    { cbn [c_rest length] in *. lia. }
+    { cbn [c_pos]. lia. }
+    rewrite E. exists p, o, c', ds. split; [reflexivity|]. split; [exact H'|]. split; [cbn [c_pos] in P'; lia | exact D']. }
+  (* unknown escape: the whole escaped character is taken *)
+  cbn [v_escape_two_bytes repaired].
+  assert (Vafter : valid_utf8 (e :: after2) = true) by apply Hafter.
+  pose proof (valid_step e after2 Vafter) as (W1 & W2 & W3 & _). cbv zeta in W1, W2, W3.
+  remember (char_width e) as w eqn:Ew.
+  replace ((w =? 0) || (length (e :: after2) <? w)) with false.
+  2:{ symmetry. apply orb_false_iff. split; [apply Nat.eqb_neq; lia | apply Nat.ltb_ge; lia]. }
+  pose proof (cur_ok_advn _ w Hafter W2 W3) as H3. unfold advn in H3. cbn [c_rest c_pos] in H3.
+  replace (pos + 1 + w) with (S pos + w) by lia.
+  destruct (IH start beg quote {| c_rest := skipn w (e :: after2); c_pos := S pos + w |} true
+              ((buf ++ seg') ++ firstn w (e :: after2)) H3)
+    as (p & o & c' & ds & E & H' & P' & D'); try assumption.
+  { cbn [c_rest]. rewrite skipn_length. cbn [length] in *. lia. }
+  { cbn [c_pos]. lia. }
+  rewrite E. exists p, o, c', (mk_diag EInvalidStringEscape 0 pos (S pos + w) :: ds).
+  split; [reflexivity|]. split; [exact H'|]. split; [cbn [c_pos] in P'; lia|].
+  constructor; [|exact D'].
+  apply mk_diag_wf. apply (span_curs pos _ Bpos H3). cbn [c_pos]. lia.
+Qed.
+
+Lemma scan_string_ok : forall c b t, cur_ok c -> c_rest c = b :: t -> is_ascii b = true ->
+  exists p o c' ds, scan_string repaired s (c_pos c) b c = Ok (TString, p, o, c', ds) /\
+    cur_ok c' /\ c_pos c < c_pos c' /\ Forall (diag_wf s) ds.
+Proof.
+  intros c b t H E A. unfold scan_string. cbv zeta. unfold adv1. rewrite E. cbn [tl c_rest c_pos].
+  destruct (cur_ok_step (c_rest c) (c_pos c) b t) as [H1 L1]; [rewrite advn_eta; exact H | exact E | exact A |].
+  destruct (scan_string_loop_ok (S (length t)) (c_pos c) (S (c_pos c)) b {| c_rest := t; c_pos := S (c_pos c) |} false [] H1)
+    as (p & o & c' & ds & E' & H' & P' & D').
+  - cbn. lia.
+  - apply cur_ok_boundary. exact H.
+  - apply (cur_ok_boundary _ H1).
+  - lia.
+  - cbn. lia.
+  - exact A.
+  - rewrite E'. exists p, o, c', ds. split; [reflexivity|]. split; [exact H'|]. split; [cbn in P'; lia | exact D'].
 Qed.
 
 End Source.
